@@ -320,6 +320,13 @@ def r7(ctx):
     ctx.check(bool(adv), "sol-confirm:series-advances", "`series` is re-assigned inside the loop (next fragment)", bd.where(w.idx))
 
 
+def r8(ctx):
+    """'every existing selected point exactly once in ascending index order': a static range whose stop index was patched ahead of a
+    value that then did not fit announces one object more than the fragment carries (and that index is sent again in the next
+    fragment). The back-patch ordering is rule C09.R10 (shared code)."""
+    import c09
+    c09.r10(ctx)
+
 RULES = [
     ("C11.R1", "T5", "the static writer reads the frozen copy only", r1),
     ("C11.R2", "T2", "events before static, static only when all selected events fit; queue pop/update discipline", r2),
@@ -328,4 +335,5 @@ RULES = [
     ("C11.R5", "T3", "timeout / new request reset the selection, end the series, retain the request", r5),
     ("C11.R6", "T8/T5", "a partially written range resumes at the index that did not fit", r6),
     ("C11.R7", "T2-loop/T8", "solicited confirm wait: deadline discipline; the expected confirm sequence is that of the current fragment", r7),
+    ("C11.R8", "T3", "a range header cut by a full fragment announces only the objects it carries (shared with C09.R10)", r8),
 ]
